@@ -16,6 +16,9 @@
 //	1_000_000 ...  d=1: every pool.go site x occurrence 1..4 x repetitions
 //	2_000_000 ...  d=2: every pair of pool.go (site, occurrence) points x repetitions
 //	3_000_000 ...  porcupine cross-check of no-expiry histories
+//	4_000_000 ...  own-ticker cases: every pool.go site x occurrence 1..2 x repetitions, a
+//	               shutdown in the middle, the pool's own clean-up ticker fired when the
+//	               planned point was reached and from inside pool.Close's closes (ticks_test.go)
 package c19
 
 import (
@@ -47,8 +50,9 @@ const (
 var vbase = time.Unix(1_700_000_000, 0)
 
 type instrEnv struct {
-	sites  []string
-	vclock bool
+	sites   []string
+	vclock  bool
+	vticker bool
 }
 
 func detectInstrumentation() instrEnv {
@@ -74,6 +78,8 @@ func detectInstrumentation() instrEnv {
 	// vclock: the instrumented copy must not call time.Now any more
 	if b, err := os.ReadFile(filepath.Join(bdir, "instr", "internal__smtpconn__pool__pool.go")); err == nil {
 		env.vclock = strings.Contains(string(b), "verifkit.Now()") && !strings.Contains(string(b), "time.Now()")
+		// vticker: the pool's own clean-up ticker must be the virtual one
+		env.vticker = strings.Contains(string(b), "verifkit.NewTicker(") && !strings.Contains(string(b), "time.NewTicker(") && !strings.Contains(string(b), "time.Tick(") && !strings.Contains(string(b), "time.After(") && !strings.Contains(string(b), "time.NewTimer(")
 	}
 	return env
 }
@@ -89,7 +95,9 @@ type poolCfg struct {
 }
 
 type op struct {
-	Kind  string `json:"kind"`            // cycle | cleanup | advance | close
+	Kind  string `json:"kind"`            // cycle | cleanup | advance | close | tick
+	When  string `json:"when,omitempty"`  // tick: now | hit (a planned delay point was reached) | close (the shutdown was requested)
+	N     int    `json:"n,omitempty"`     // tick: ticks in a row
 	Key   int    `json:"key,omitempty"`   // cycle
 	Break bool   `json:"break,omitempty"` // cycle: the connection dies while idle (Usable()=false after the return)
 	Drop  bool   `json:"drop,omitempty"`  // cycle: the delivery closes the connection itself instead of returning it
@@ -97,11 +105,12 @@ type op struct {
 }
 
 type scenario struct {
-	Cfg     poolCfg `json:"cfg"`
-	NKeys   int     `json:"n_keys"`
-	Workers [][]op  `json:"workers"`
-	HasShut bool    `json:"has_shutdown"`
-	NoExp   bool    `json:"no_expiry,omitempty"`
+	Cfg     poolCfg  `json:"cfg"`
+	NKeys   int      `json:"n_keys"`
+	Workers [][]op   `json:"workers"`
+	HasShut bool     `json:"has_shutdown"`
+	NoExp   bool     `json:"no_expiry,omitempty"`
+	Tick    *tickCfg `json:"tick,omitempty"` // own-ticker dimensions (ticks_test.go)
 }
 
 func genScenario(p *prng.R) scenario {
@@ -217,11 +226,19 @@ func (sc scenario) shape() string {
 				s += fmt.Sprintf("A%d", o.Adv)
 			case "close":
 				s += "X"
+			case "tick":
+				s += fmt.Sprintf("T%d%c", o.N, o.When[0])
+				if o.Adv > 0 {
+					s += "m"
+				}
 			}
 		}
 		ws = append(ws, s)
 	}
 	sort.Strings(ws)
+	if tc := sc.Tick; tc != nil {
+		ws = append(ws, fmt.Sprintf("tick=%v/%v/%d", tc.SlowClose, tc.InClose, tc.AfterClose))
+	}
 	return fmt.Sprintf("cfg=%d/%d/%d/%d/%v w=%s", sc.Cfg.MaxKeys, sc.Cfg.MaxConns, sc.Cfg.LifeSec, sc.Cfg.StaleSec, sc.Cfg.WithNew, strings.Join(ws, "|"))
 }
 
@@ -259,6 +276,8 @@ type monitor struct {
 	closeRet int // seq of pool.Close() having returned (0 = not yet)
 	closeCal int // seq of pool.Close() being called
 	counts   map[string]int
+	tick     *tickCfg // immutable during a run
+	ticksOff bool     // immutable during a run: tick features switched off (hangs confirmed earlier in this process)
 }
 
 type fconn struct {
@@ -343,6 +362,7 @@ func closerKind() string {
 
 func (c *fconn) Close() error {
 	by := closerKind()
+	c.m.gate(by) // own-ticker dimensions: tick inside pool.Close's closes, slow closes (no-op otherwise)
 	c.m.mu.Lock()
 	defer c.m.mu.Unlock()
 	c.closes++
@@ -442,10 +462,28 @@ func keyName(i int) string { return fmt.Sprintf("mx%d.example.org", i) }
 
 func runScenario(sc scenario, plan planSpec, seed uint64) *runResult {
 	res := &runResult{}
-	m := &monitor{lifeSec: sc.Cfg.LifeSec, counts: map[string]int{}}
+	m := &monitor{lifeSec: sc.Cfg.LifeSec, counts: map[string]int{}, tick: sc.Tick}
+	m.ticksOff = hangsConfirmed.Load() >= hangsBeforeTicksOff
 	res.mon = m
+	if hangsConfirmed.Load() >= hangsBeforeSkip {
+		// a tree that hangs in a large share of the cases: the verdict is given, do not
+		// spend a watchdog period on each of the remaining cases of this process
+		res.undecided = fmt.Sprintf("not run: %d logical hangs were already confirmed in this shard process", hangsBeforeSkip)
+		return res
+	}
 	verifkit.SetVirtualClock(vbase)
 	plan.install(seed)
+	verifkit.ForgetTickers() // tickers leaked by an earlier (hung) case take no part
+	_, tkDelivered0, _, _ := verifkit.TickerStats()
+	tkDiscarded0 := verifkit.TicksDiscarded()
+	defer func() {
+		// ticks the pool's own goroutine really received = delivered - discarded by Stop - still pending
+		_, d, _, _ := verifkit.TickerStats()
+		got := int(d-tkDelivered0) - int(verifkit.TicksDiscarded()-tkDiscarded0) - verifkit.PendingTicks()
+		m.mu.Lock()
+		m.counts["own_ticker_ticks_received_by_pool"] += got
+		m.mu.Unlock()
+	}()
 
 	cfg := pool.Config{MaxKeys: sc.Cfg.MaxKeys, MaxConnsPerKey: sc.Cfg.MaxConns, MaxConnLifetimeSec: sc.Cfg.LifeSec, StaleKeyLifetimeSec: sc.Cfg.StaleSec}
 	if sc.Cfg.WithNew {
@@ -509,6 +547,8 @@ func runScenario(sc scenario, plan planSpec, seed uint64) *runResult {
 					})
 				case "close":
 					doPoolClose(w)
+				case "tick":
+					m.runTickOp(w, o)
 				case "cycle":
 					key := keyName(o.Key)
 					if o.Adv > 0 {
@@ -594,6 +634,7 @@ func runScenario(sc scenario, plan planSpec, seed uint64) *runResult {
 	if !waitDone(done) {
 		parked, dump := stuckAnalysis("internal/smtpconn/pool.", "internal/smtpconn/pool.(*P).", m.len)
 		if parked {
+			hangsConfirmed.Add(1)
 			res.stuck, res.stuckWhat = dump, "a Get/Return/CleanUp/Close call"
 		} else {
 			res.undecided = "workers did not finish within the watchdog, pool goroutines not all parked"
@@ -606,11 +647,18 @@ func runScenario(sc scenario, plan planSpec, seed uint64) *runResult {
 	if !waitDone(cd) {
 		parked, dump := stuckAnalysis("internal/smtpconn/pool.", "internal/smtpconn/pool.(*P).Close", m.len)
 		if parked {
+			hangsConfirmed.Add(1)
 			res.stuck, res.stuckWhat = dump, "pool.Close"
 		} else {
 			res.undecided = "pool.Close did not return within the watchdog, pool goroutines not all parked"
 		}
 		return res
+	}
+	// a tick after the shutdown: the pool's ticker is stopped (or about to be), nothing may crash
+	if sc.Tick != nil {
+		for k := 0; k < sc.Tick.AfterClose; k++ {
+			m.fireTick(-2, 0, "after_close")
+		}
 	}
 	// Quiescence: every connection whose Return had completed before the
 	// shutdown was requested, and that was not handed out again, must end closed
@@ -709,7 +757,7 @@ func judge(c *rep.Case, r *rep.Reporter, ys yieldStats, sc scenario, plan planSp
 		break
 	}
 	if res.stuck != "" {
-		c.Violation("blocks-forever", res.stuckWhat+" never returns: every goroutine inside the pool package is parked", wit(map[string]any{"goroutines": res.stuck}))
+		c.Violation("blocks-forever", res.stuckWhat+" never returns: every goroutine inside the pool package is parked", wit(map[string]any{"goroutines": res.stuck, "own_tick_goroutine_parked_inside_CleanUp": ownTickParked(res.stuck)}))
 	}
 	if len(res.leaked) > 0 {
 		c.Violation("own/returned-connection-neither-reused-nor-closed", fmt.Sprintf("connections %v were returned to the live pool (Return completed before the shutdown was requested), were not handed out again, the pool is shut down and no pool goroutine is left, yet they were never closed", res.leaked), wit(nil))
@@ -727,6 +775,18 @@ func judge(c *rep.Case, r *rep.Reporter, ys yieldStats, sc scenario, plan planSp
 	r.Count("connections_closed", int64(nclosed))
 	for _, k := range []string{"pool_get_closed_unusable", "pool_get_closed_expired", "pool_get_closed_with_bucket", "handout_idle_eq_lifetime", "handout_idle_gt_0"} {
 		r.Count(k, int64(counts[k]))
+	}
+	// own-ticker dimensions
+	for k, v := range counts {
+		if strings.HasPrefix(k, "ticks_") || strings.HasPrefix(k, "own_ticker_") || strings.HasPrefix(k, "tick_driver_") || k == "slow_closes" || k == "in_close_tick_taken_or_discarded" {
+			r.Count(k, int64(v))
+		}
+	}
+	if sc.Tick != nil {
+		r.Count("runs_with_own_ticker_dimensions", 1)
+		if m.ticksOff {
+			r.Count("runs_with_ticks_switched_off_after_hangs", 1)
+		}
 	}
 	if counts["pool.close.ret"] > 0 && sc.HasShut {
 		// gets that were called after the shutdown had returned
@@ -783,12 +843,21 @@ func TestVerif(t *testing.T) {
 	if !env.vclock {
 		t.Fatalf("vclock instrumentation of pool.go missing: idle life times cannot be driven")
 	}
+	if !env.vticker {
+		t.Fatalf("vticker instrumentation of pool.go missing: the pool's own clean-up ticker cannot be driven")
+	}
+	r.Set("vticker_instrumented", env.vticker)
 	r.Set("yield_sites_total", len(env.sites))
 	r.Set("yield_site_list", env.sites)
 	r.Set("vclock_instrumented", env.vclock)
 	ys := yieldStats{r: r, total: len(env.sites)}
 
 	one := func(c *rep.Case, p *prng.R, sc scenario, plan planSpec) {
+		if c.Index >= baseTick {
+			ensureShutdown(&sc)
+		}
+		// own-ticker dimensions from a stream of their own: the scenario and the plan stay what they were
+		addTicks(&sc, prng.New(r.Seed(), uint64(c.Index), "c19/ticks"), plan, c.Index >= baseTick)
 		seed := p.Uint64()
 		res := runScenario(sc, plan, seed)
 		// under ./check replay repeat the recorded case until it shows a violation
@@ -846,6 +915,24 @@ func TestVerif(t *testing.T) {
 	}
 	r.Set("d2_exhaustive_pairs", true)
 	r.Set("d2_plans", len(pairs))
+
+	// own-ticker cases: shutdown in the middle, planned delay at every site x occurrence 1..2,
+	// tick fired when the point was reached and from inside pool.Close's closes
+	reps5 := r.N(4, 60)
+	k = 0
+	for _, site := range env.sites {
+		for occ := 1; occ <= 2; occ++ {
+			for rp := 0; rp < reps5; rp++ {
+				idx := baseTick + k
+				k++
+				site, occ := site, occ
+				r.Run(idx, fmt.Sprintf("tick-%s#%d-r%d", site, occ, rp), func(c *rep.Case) {
+					p := prng.New(r.Seed(), uint64(idx), "c19")
+					one(c, p, genScenario(p), planSpec{D: 1, Points: []verifkit.PlanPoint{{Site: site, Occ: occ}}})
+				})
+			}
+		}
+	}
 
 	runPorcupine(t, r, env, ys)
 
